@@ -417,6 +417,16 @@ impl Ctx {
         self.max_in_flight.store(0, SeqCst);
     }
 
+    /// Releases every allocation held by the harness context (used before
+    /// allocator-ledger snapshots so that the bracket only sees the crate).
+    pub fn release_memory(&self) {
+        *lock(&self.loader_log) = Vec::new();
+        let mut f = lock(&self.faults);
+        *f = LoaderFaults::default();
+        drop(f);
+        *lock(&self.rendezvous) = HashMap::new();
+    }
+
     pub fn take_loader_log(&self) -> Vec<LoadEv> {
         std::mem::take(&mut *lock(&self.loader_log))
     }
